@@ -47,7 +47,7 @@ func (s *sent) expected() any {
 func init() {
 	register(&scenario{
 		Prop: "C07", Run: runC07, Level: "exploration", Quick: 100000, Thorough: 4000000,
-		Rule: "one run = either (direct) one canonical message of one of the 170 types followed by seeded trailing bytes, decoded once; or (pipeline) 1-3 simulated connections, each carrying 1-8 canonical messages of mixed types encoded back to back into one send buffer, delivered by the simulated wire in seeded segments (all at once / 1-byte dribble / random sizes / cuts at field boundaries) with connections interleaved, to a receiver running the accumulate-and-try-decode loop on private copies. Oracles: decode consumes exactly the message's bytes, the rest is untouched and unread; delivered sequence deep-equals the sent sequence (exactly once, in order); connection buffer ends empty. Fault-free configuration (segmentation only). Non-trivial = trailing bytes / segmentation / batching actually occurred and an oracle ran; distinct = distinct run fingerprints.",
+		Rule: "one run = either (direct) one canonical message of one of the 170 types followed by seeded trailing bytes, decoded once; or (same buffer) 1-8 messages of mixed types encoded back to back into ONE buffer (optionally behind already-consumed bytes, with seeded capacity slack and trailing bytes) and recovered by successive decodes from that same buffer object, so decodes start at non-zero read offsets; or (pipeline) 1-3 simulated connections, each carrying 1-8 canonical messages of mixed types encoded back to back into one send buffer, delivered by the simulated wire in seeded segments (all at once / 1-byte dribble / random sizes / cuts at field boundaries) with connections interleaved, to a receiver running the accumulate-and-try-decode loop on private copies. Oracles: decode consumes exactly the message's bytes, the rest is untouched and unread; delivered sequence deep-equals the sent sequence (exactly once, in order); connection buffer ends empty. Fault-free configuration (segmentation only). Non-trivial = trailing bytes / segmentation / batching actually occurred and an oracle ran; distinct = distinct run fingerprints.",
 		Assumptions: []string{"values canonical w.r.t. the pinned schema", "self-computed frame fields are compared with what the encoder put on the wire (their correctness is C04/C05)"},
 	})
 }
@@ -55,11 +55,97 @@ func init() {
 func runC07(c *RunCtx) {
 	t := c.T
 	g := &Gen{t: t, cfg: drawCfg(t, c.Thorough)}
-	if t.Intn(3) == 0 {
+	switch t.Intn(4) {
+	case 0:
 		c07Direct(c, g)
-		return
+	case 1:
+		c07SameBuffer(c, g)
+	default:
+		c07Pipeline(c, g)
 	}
-	c07Pipeline(c, g)
+}
+
+// c07SameBuffer is the property's second sentence taken literally: n messages encoded one
+// after another into ONE buffer (which may already have been partly consumed, and whose
+// capacity may be tight) are recovered by n successive decodes from that same buffer object,
+// so every decode but the first starts at a non-zero read offset.
+func c07SameBuffer(c *RunCtx, g *Gen) {
+	t := c.T
+	n := 1 + t.Intn(8)
+	lead := []int{0, 0, 1, 7, 64, 300}[t.Intn(6)]
+	var wire bytes.Buffer
+	wire.Write(noise(t, lead))
+	var sents []*sent
+	for i := 0; i < n; i++ {
+		name := pickType(t, 5)
+		m := g.Value(name)
+		s := &sent{name: name, pre: Clone(m), post: m}
+		before := wire.Len()
+		r := tryEncode(m, &wire)
+		if r.Err != nil || r.Panic != nil {
+			c.Probe("skip.encode-failed")
+			return
+		}
+		s.w = cloneBytes(wire.Bytes()[before:])
+		sents = append(sents, s)
+		c.Count("type."+name, 1)
+		if c.Tracing {
+			c.LogValue(fmt.Sprintf("SEND #%d %s (%d bytes)", i, name, len(s.w)), s.pre)
+		}
+	}
+	tail := noise(t, []int{0, 0, 1, 5, 40}[t.Intn(5)])
+	wire.Write(tail)
+	all := cloneBytes(wire.Bytes())
+	slack := []int{0, 1, 64, 4096}[t.Intn(4)]
+	arr := make([]byte, len(all), len(all)+slack)
+	copy(arr, all)
+	buf := bytes.NewBuffer(arr)
+	buf.Next(lead)
+	if lead > 0 {
+		c.Fire("hist.consumed")
+	}
+	if n > 1 {
+		c.Fire("hist.batch")
+	}
+	if len(tail) > 0 {
+		c.Fire("hist.trailing")
+	}
+	off := lead
+	for i, s := range sents {
+		recv := newValue(s.name)
+		r := tryDecode(recv, buf)
+		if r.Panic != nil {
+			c.Fail("C07/panic", s.name, "decode #%d (%s) from the shared buffer at read offset %d panicked: %v", i, s.name, off, r.Panic)
+			return
+		}
+		c.Oracle("accepts-own-encoding")
+		if r.Err != nil {
+			c.Fail("C07/rejected", s.name, "decode #%d of %d (%s, %d bytes) from one buffer holding the messages back to back returned %v (read offset %d)", i, n, s.name, len(s.w), r.Err, off)
+			return
+		}
+		c.Oracle("consumes-exactly")
+		want := all[off+len(s.w):]
+		c.T.Observe(uint64(buf.Len()))
+		if buf.Len() != len(want) {
+			c.Fail("C07/consumed", s.name, "decode #%d (%s) from the shared buffer consumed %d bytes but the message is %d bytes", i, s.name, len(all)-off-buf.Len(), len(s.w))
+			return
+		}
+		c.Oracle("rest-untouched")
+		if !bytes.Equal(buf.Bytes(), want) {
+			c.Fail("C07/rest-changed", s.name, "decode #%d (%s): the bytes after the message were altered", i, s.name)
+			return
+		}
+		c.Oracle("delivered-equals-sent")
+		if ok, d := Equal(s.expected(), recv); !ok {
+			c.Fail("C07/delivered-differs", s.name, "message #%d (%s) decoded from the shared buffer at read offset %d differs from the message sent at %s", i, s.name, off, d)
+			return
+		}
+		off += len(s.w)
+	}
+	c.Oracle("buffer-empty")
+	if buf.Len() != len(tail) {
+		c.Fail("C07/leftover", sents[len(sents)-1].name, "%d bytes left in the buffer after the last message, %d trailing bytes were appended", buf.Len(), len(tail))
+	}
 }
 
 func c07Direct(c *RunCtx, g *Gen) {
@@ -847,9 +933,18 @@ func runC16(c *RunCtx) {
 			c.Fire("pool.recycle")
 		}
 		buf.Reset()
-		if other, ok := genSent(c, g, pickType(t, 5)); ok {
+		// other traffic through the recycled buffer: another type, or (so that a result cached or
+		// pooled per type inside the library is reused) another message of the SAME type
+		oname := name
+		if t.Intn(2) == 0 {
+			oname = pickType(t, 5)
+		}
+		if other, ok := genSent(c, g, oname); ok {
 			buf.Write(other.w)
 			tryDecode(newValue(other.name), buf)
+			if oname == name {
+				c.Probe("recycled-buffer-carried-same-type")
+			}
 		}
 		c.Oracle("decoded-message-survives-buffer-reuse")
 		okk, d := Equal(snap, recv)
